@@ -297,6 +297,14 @@ func (in *Interp) runPath(h *ssa.Function, prefix []Decision, sample bool) (res 
 		in.restoreSnapshot()
 	} else if initFn := h.Pkg.Func("init"); initFn != nil {
 		in.callFn(initFn, nil, nil)
+		// table-only library packages are initialised eagerly so that the snapshot contains them
+		for _, pkg := range in.prog.AllPackages() {
+			if lazyInitPkgs[pkg.Pkg.Path()] && !heavyInitPkgs[pkg.Pkg.Path()] && !in.extInit[pkg] {
+				if f := pkg.Func("init"); f != nil {
+					in.ensureExtInit(f)
+				}
+			}
+		}
 		if !in.noSnap && len(in.decisions) == 0 && len(in.pc) == 0 && len(in.inputs) == 0 {
 			in.takeSnapshot(h)
 		}
